@@ -154,6 +154,14 @@ func GenDB(r *rand.Rand, maxGraphs, maxNodes, maxRels int) DBSpec {
 					Kind: relKinds[r.IntN(len(relKinds))], Props: genProps(r)})
 			}
 		}
+		if len(gs.Nodes) > 0 && r.IntN(25) == 0 {
+			// one large value: a fragment bigger than a compression block
+			i := r.IntN(len(gs.Nodes))
+			if gs.Nodes[i].Props == nil {
+				gs.Nodes[i].Props = map[string]any{}
+			}
+			gs.Nodes[i].Props["blob"] = fmt.Sprintf("@@BIG:%d", []int{70000, 140000, 300000}[r.IntN(3)])
+		}
 		db.Graphs = append(db.Graphs, gs)
 	}
 	return db
@@ -161,12 +169,31 @@ func GenDB(r *rand.Rand, maxGraphs, maxNodes, maxRels int) DBSpec {
 
 func GenOpts(r *rand.Rand, n int) Opts {
 	sizes := []int{1, 2, 3, 5, max(1, n), n + 1}
-	return Opts{Codec: []string{"none", "gzip", "zstd"}[r.IntN(3)], Shard: sizes[r.IntN(len(sizes))], Batch: sizes[r.IntN(len(sizes))], Zstd: []int{1, 3, 3, 7}[r.IntN(4)]}
+	return Opts{Codec: []string{"none", "gzip", "zstd"}[r.IntN(3)], Shard: sizes[r.IntN(len(sizes))], Batch: sizes[r.IntN(len(sizes))], Zstd: []int{1, 3, 3, 7, 11, 19, 22}[r.IntN(7)]}
 }
 
 // driverValue mimics what a driver hands back: integral numbers as int64, the rest as decoded.
+// bigText expands the compact spec form "@@BIG:<n>" into n bytes of deterministic, mildly repetitive
+// text (fragments larger than one compression block / window).
+func bigText(spec string) string {
+	var n int
+	fmt.Sscanf(spec, "@@BIG:%d", &n)
+	var b strings.Builder
+	x := uint32(n)*2654435761 + 12345
+	for b.Len() < n {
+		x = x*1664525 + 1013904223
+		fmt.Fprintf(&b, "user-%04x@example.invalid;", x>>16)
+	}
+	return b.String()[:n]
+}
+
 func driverValue(v any) any {
 	switch x := v.(type) {
+	case string:
+		if strings.HasPrefix(x, "@@BIG:") {
+			return bigText(x)
+		}
+		return x
 	case float64:
 		if x == math.Trunc(x) && math.Abs(x) <= 1<<53 {
 			return int64(x)
@@ -684,6 +711,11 @@ func CheckDumpRef(dir string, src DBSpec, loadBatch int, allowCheckpoint bool, r
 // is scheduled by the seeded scheduler and replays. The schedule seed is derived from the workload's
 // seed and a stable key of the call (not its position), so shrinking a workload keeps schedules.
 func UnderSim(t *testing.T, cfg simrt.Config, key string, fn func()) (class, detail string) {
+	return UnderSimN(t, cfg, key, fn)
+}
+
+// UnderSimN runs several independent calls as concurrent client tasks of one simulated run.
+func UnderSimN(t *testing.T, cfg simrt.Config, key string, fns ...func()) (class, detail string) {
 	c := cfg
 	c.Replay = nil
 	c.Trace = false
@@ -694,7 +726,11 @@ func UnderSim(t *testing.T, cfg simrt.Config, key string, fn func()) (class, det
 	}
 	c.Seed = cfg.Seed ^ h
 	c.MaxSteps, c.FairSteps = 2000000, 2000000
-	res := simrt.Run(t, c, func(s *simrt.Sim) { s.Spawn(fn) })
+	res := simrt.Run(t, c, func(s *simrt.Sim) {
+		for _, fn := range fns {
+			s.Spawn(fn)
+		}
+	})
 	switch {
 	case res.Infra != "":
 		return "infra", res.Infra
